@@ -79,19 +79,6 @@ theorem missing_generated (rows : List (MRow F)) (ref i : Nat) :
     IncidenceRateDifference_missing rows ref i = [missingED rows, missingE rows, missingD rows, missingT rows] :=
   ⟨rfl, rfl, rfl, rfl, rfl, rfl⟩
 
-/-- the counts entering the Fréchet bounds of `RiskDifference.fit` are those of the model's `frechet` -/
-theorem frechet_counts_generated (rows : List (MRow F)) (ref i : Nat) :
-    RiskDifference_frechet_counts rows ref i =
-      (cntED rows i true, cntED rows i false,
-       (rows.filter fun r => r.e.isSome && r.e != some i && r.d == some true).length,
-       (complete rows).length) := by
-  unfold RiskDifference_frechet_counts cntED complete
-  simp only [Prod.mk.injEq, true_and]
-  refine ⟨?_, trivial⟩
-  congr 1
-  apply List.filter_congr
-  intro r _
-  cases r.e <;> simp [Bool.and_comm]
 
 /-- `fit` of the four count classes, with the loop body taken from the generated code: every reported level's
     result is the count function on the cross-tabulation of the rows with exposure and outcome observed -/
